@@ -133,7 +133,16 @@ def _run(res, rng, tier, driver, work):
     states = corpus()
     for i in range(n_gw):
         version = rng.choice(["1.4", "1.5", "2.0", "2.1", "2.2"])
-        states.append((f"gateway {version} #{i}", pu.gateway_state(rng, version, rng.choice([5, 15, 40])), True))
+        audit = []
+        states.append((f"gateway {version} #{i}", pu.gateway_state(rng, version, rng.choice([5, 15, 40]), audit), True))
+        for nid, cid, vt, value, before, after in audit[:1]:
+            res.oracle_failures.append({
+                "key": {"kind": "desired-value-persisted"},
+                "what": f"gateway {version}: the controller set value type {vt} of child {cid} on the sleeping node {nid} "
+                        f"to {value!r}; the node has not confirmed it, yet what a save writes changed "
+                        f"({first_diff(before, after)}): a load brings the pending desired value back as a reported one",
+                "replay": {"label": f"gateway {version} #{i}", "desired": [nid, cid, vt, value],
+                           "before": before[:1500], "after": after[:1500]}})
     for i in range(n_direct):
         states.append((f"direct #{i}", pu.direct_state(rng), True))
     lines, impls, labels = [], [], []
@@ -289,9 +298,17 @@ def replay(payload):
     rc = 0
     try:
         states = corpus()
-        for i in range(40):
+        tier = os.environ.get("VERIF_TIER", "quick")
+        n_gw = (40 if tier == "quick" else 700) * common.effort(tier)
+        for i in range(n_gw):
             version = rng.choice(["1.4", "1.5", "2.0", "2.1", "2.2"])
-            states.append((f"gateway {version} #{i}", pu.gateway_state(rng, version, rng.choice([5, 15, 40])), True))
+            audit = []
+            states.append((f"gateway {version} #{i}", pu.gateway_state(rng, version, rng.choice([5, 15, 40]), audit), True))
+            if states[-1][0] == label and "desired" in r:
+                for nid, cid, vt, value, before, after in audit:
+                    print(f"desired value {value!r} for value type {vt} of child {cid} on the sleeping node {nid} "
+                          f"changed what a save writes:\n  before: {before[:600]}\n  after:  {after[:600]}")
+                    rc = 1
         for i in range(160):
             states.append((f"direct #{i}", pu.direct_state(rng), True))
         for lab, sensors, exact in states:
